@@ -52,7 +52,8 @@ REGISTRY = {
                      (A + "RecSeq", "Api.Rec.early_write_counterexample"), (A + "RecLockThm", "Api.Rec.visit_pinned"), (A + "RecSoundThm", "Api.Rec.true_sound")],
         "partial": "no-crash proved in strict mode on Ty.accU (unions of any shape at any depth) without uniqueItems for every datum of Py.jsonX: JSON containers with string keys whose leaves may be "
                    "any object that is not an instance of the JSON classes (tuples, bytes, ...), and likewise for the tree built with the default coercer (no_crashC); non-string keys, JSON-class subclasses and purity "
-                   "(input not modified) are decided by the correspondence / harness only",
+                   "(input not modified) are decided by the correspondence / harness only; no RecursionError while a method is compiled: an answer True of the recursion analysis is "
+                   "a type that reaches itself (true_sound: every graph, every history of calls); the converse is decided on generated class graphs (memo = model, answers exact, cold first uses return)",
         "assumptions": MODEL_ASSUMPTIONS + ["the model is a pure function: 'never modifies the input' is a harness test, not a theorem"],
     },
     "C08": {
